@@ -94,6 +94,7 @@ type storedConf struct {
 type snap struct {
 	gid     string
 	index   map[string]string                 // external string -> oracle bech32
+	byBridger map[string]string               // 0x14: bridger bech32 -> oracle bech32 (what claims and queries use)
 	oracles map[string]crosschaintypes.Oracle // oracle bech32 -> record
 	objs    []storedObj
 	confs   []storedConf
@@ -102,7 +103,10 @@ type snap struct {
 func (h *hist) snapshot() *snap {
 	ctx := h.c.Ctx
 	cdc := h.c.App.AppCodec()
-	s := &snap{gid: h.x.Keeper.GetGravityID(ctx), index: map[string]string{}, oracles: map[string]crosschaintypes.Oracle{}}
+	s := &snap{gid: h.x.Keeper.GetGravityID(ctx), index: map[string]string{}, byBridger: map[string]string{}, oracles: map[string]crosschaintypes.Oracle{}}
+	for _, kv := range h.c.DumpPrefix(ctx, h.chain, crosschaintypes.OracleAddressByBridgerKey) {
+		s.byBridger[sdk.AccAddress(kv.K[1:]).String()] = sdk.AccAddress(kv.V).String()
+	}
 	for _, kv := range h.c.DumpPrefix(ctx, h.chain, crosschaintypes.OracleAddressByExternalKey) {
 		s.index[string(kv.K[1:])] = sdk.AccAddress(kv.V).String()
 	}
@@ -202,6 +206,32 @@ type hist struct {
 	blockNo uint64
 	accepted []confirmMsg
 	log     []string
+	released map[int][]lib.Key // oracle index -> bridger accounts it gave up through MsgEditBridger
+	edits   int
+}
+
+// editBridger: oracle i rotates its bridger through the real MsgServer.EditBridger; afterwards a fresh object
+// appears (nobody has confirmed it yet), so confirms from the released and from the new bridger both matter
+func (h *hist) editBridger() {
+	i := h.r.Intn(len(h.x.Oracles))
+	o := h.x.Oracles[i]
+	h.edits++
+	nb := lib.EthKey(h.c.Seed, "bridger-rot/"+h.chain, i*100+h.edits)
+	old := o.Bridger
+	err := h.c.Try(func(ctx sdk.Context) error {
+		_, err := h.x.Msg().EditBridger(ctx, &crosschaintypes.MsgEditBridger{ChainName: h.chain, OracleAddress: o.Oracle.Acc().String(), BridgerAddress: nb.Acc().String()})
+		return err
+	})
+	h.log = append(h.log, fmt.Sprintf("edit-bridger oracle=%d %s -> %s err=%v", i, old.Acc().String(), nb.Acc().String(), err))
+	if err != nil {
+		return
+	}
+	if h.released == nil {
+		h.released = map[int][]lib.Key{}
+	}
+	h.released[i] = append(h.released[i], old)
+	o.Bridger = nb
+	h.store(rndObj(h.r, h.r.Intn(3), 4, 40, true))
 }
 
 func (h *hist) id64(s string) int64 {
@@ -348,7 +378,37 @@ func (h *hist) plan(s *snap) stepPlan {
 	signObj := target
 	sc := "valid"
 	mangle := ""
-	switch k := r.Intn(100); {
+	k := r.Intn(100)
+	if len(h.released) > 0 && r.Chance(45) {
+		// an oracle that rotated its bridger: a genuine signature, submitted by the released or by the current bridger,
+		// for an object that oracle has not confirmed yet if there is one
+		for i := range h.x.Oracles { // (index order: map iteration would not replay)
+			rel := h.released[i]
+			if len(rel) == 0 {
+				continue
+			}
+			if r.Chance(60) || orc.Idx == i {
+				orc = h.x.Oracles[i]
+				m.bridger, m.external, signKey = orc.Bridger.Acc().String(), orc.ExtAddr, orc.External
+				sc, k = "after-rotation-current-bridger", 0
+				if r.Chance(55) {
+					sc = "after-rotation-released-bridger"
+					m.bridger = rel[r.Intn(len(rel))].Acc().String()
+				}
+				break
+			}
+		}
+		if k == 0 {
+			oa := s.index[orc.ExtAddr]
+			for _, o := range s.objs {
+				if !s.hasConf(o.kind, o.token, o.nonce, oa) {
+					target, signObj = o, o
+					m.kind, m.token, m.nonce = o.kind, o.token, o.nonce
+				}
+			}
+		}
+	}
+	switch {
 	case k < 30:
 	case k < 36:
 		sc, signKey = "wrong-key-other-oracle", other.External
@@ -646,6 +706,11 @@ func (h *hist) step(rep *lib.Report, stepNo int) stepResult {
 			if orc.BridgerAddress != m.bridger {
 				fail("C12/accepted-wrong-bridger", "confirm accepted although the message's bridger is not the oracle's bridger")
 			}
+			// "that oracle's bridger" is also what the by-bridger index says (claims, queries, EditBridger use it):
+			// the submitter must be bound to this oracle there, and record and index must agree
+			if bound, ok := pre.byBridger[m.bridger]; !ok || bound != orcAddr {
+				fail("C12/accepted-bridger-not-indexed", fmt.Sprintf("confirm for oracle %s accepted from %s, which the by-bridger index does not bind to that oracle (bound to %q); the index binds it to a bridger the handler refuses", orcAddr, m.bridger, bound))
+			}
 			// the signature must verify, under the registered key, over the contract's digest of exactly the stored object
 			// (for objects with a uint64 field >= 2^63 the Go code's int64 cast makes its digest differ from the
 			// contract's; such objects are unreachable and either digest is accepted here, see docs/C12.md)
@@ -700,6 +765,12 @@ func (h *hist) step(rep *lib.Report, stepNo int) stepResult {
 	}
 	_ = realCP
 
+	for oa, o := range pre.oracles {
+		if pre.byBridger[o.BridgerAddress] != oa {
+			rep.Count("oracle record and by-bridger index disagree (state seen before a step)")
+			break
+		}
+	}
 	rep.Count("scenario:" + p.scenario)
 	if p.wrapped {
 		rep.Count("route:MsgConfirm")
